@@ -428,7 +428,9 @@ def compute_next_state(state: State, event: dict) -> State:
                 if _is_match(
                     flow_config.elements[flow_state.head + branch_head], event
                 ):
+                    # The first branch that matches is the one that is followed
                     matching_head = flow_state.head + branch_head + 1
+                    break
         else:
             if _is_match(flow_head_element, event):
                 matching_head = flow_state.head + 1
